@@ -312,6 +312,88 @@ mod verif_cex_history {
         res
     }
 
+    // a parent bucket of a few leaves with ONE nested bucket of several leaves; ONE transaction deletes a window of the parent's
+    // keys (every prefix and every suffix: whole leaves emptied while others are never touched, so that rebalancing promotes an
+    // untouched page) AND reworks the nested bucket (deletes that merge nodes and give pages back, one insertion); then an
+    // ordinary transaction on top.  Exercises: nested-bucket headers re-stored at commit whatever happens to the parent's tree.
+    fn run_window_shape(outer: u32, inner: u32, nested_first: bool, lo: u32, hi: u32) -> Result<(), String> {
+        let p = std::env::temp_dir().join(format!("jammdb-cex-window-{}-{}-{}-{}-{}-{}.db", outer, inner, nested_first, lo, hi, std::process::id()));
+        let _ = std::fs::remove_file(&p);
+        let res = (|| {
+            let what = format!("shape: bucket `outer` with {} keys (100-byte values) and one nested bucket ({} keys) sorted {} them, page size 1024; ONE transaction deletes the outer keys [{}..{}), deletes inner keys 1..4 and inserts one; then one more ordinary transaction", outer, inner, if nested_first { "before" } else { "after" }, lo, hi);
+            let db = OpenOptions::new().pagesize(1024).open(&p).map_err(|e| format!("open: {:?}", e))?;
+            let okey = |i: u32| format!("key-{:04}", i).into_bytes();
+            let ikey = |i: u32| format!("in-{:05}", i).into_bytes();
+            let val = |i: u32| vec![b'a' + (i % 26) as u8; 100];
+            let iname: Vec<u8> = if nested_first { b"00-inner".to_vec() } else { b"zz-inner".to_vec() };
+            let mut m = MB::default();
+            {
+                let tx = db.tx(true).unwrap();
+                let ob = tx.create_bucket("outer").unwrap();
+                let mut om = MB::default();
+                for i in 0..outer { ob.put(okey(i), val(i)).unwrap(); om.items.insert(okey(i), M::Kv(val(i))); om.next_int += 1; }
+                let ib = ob.create_bucket(iname.clone()).unwrap();
+                let mut im = MB::default();
+                for i in 0..inner { ib.put(ikey(i), val(i)).unwrap(); im.items.insert(ikey(i), M::Kv(val(i))); im.next_int += 1; }
+                om.items.insert(iname.clone(), M::B(im)); om.next_int += 1;
+                m.items.insert(b"outer".to_vec(), M::B(om));
+                tx.commit().map_err(|e| format!("{}: first commit fails: {:?}", what, e))?;
+            }
+            {
+                let tx = db.tx(true).unwrap();
+                {
+                    let ob = tx.get_bucket("outer").unwrap();
+                    let ib = ob.get_bucket(iname.clone()).map_err(|e| format!("{}: nested bucket missing: {}", what, kind(&e)))?;
+                    let om = model_at(&mut m, &[b"outer".to_vec()]);
+                    for i in lo..hi { ob.delete(okey(i)).map_err(|e| format!("{}: delete fails: {}", what, kind(&e)))?; om.items.remove(&okey(i)); }
+                    if let Some(M::B(im)) = om.items.get_mut(&iname) {
+                        for i in 1..4u32.min(inner) { ib.delete(ikey(i)).map_err(|e| format!("{}: inner delete fails: {}", what, kind(&e)))?; im.items.remove(&ikey(i)); }
+                        ib.put(ikey(90000), val(7)).unwrap(); im.items.insert(ikey(90000), M::Kv(val(7))); im.next_int += 1;
+                    }
+                }
+                tx.commit().map_err(|e| format!("{}: commit fails: {:?}", what, e))?;
+            }
+            db.check().map_err(|e| format!("{}: DB::check() fails after the window transaction: {:?}", what, e))?;
+            read_all(&db, &m, &what)?;
+            {
+                let tx = db.tx(true).unwrap();
+                {
+                    let ob = tx.get_bucket("outer").unwrap();
+                    let ib = ob.get_bucket(iname.clone()).map_err(|e| format!("{}: nested bucket missing in the follow-up transaction: {}", what, kind(&e)))?;
+                    let om = model_at(&mut m, &[b"outer".to_vec()]);
+                    if let Some(M::B(im)) = om.items.get_mut(&iname) {
+                        for i in 91000..91010u32 { ib.put(ikey(i), val(i)).unwrap(); im.items.insert(ikey(i), M::Kv(val(i))); im.next_int += 1; }
+                    }
+                    ob.put(okey(5000), val(1)).unwrap(); if om.items.insert(okey(5000), M::Kv(val(1))).is_none() { om.next_int += 1; }
+                }
+                tx.commit().map_err(|e| format!("{}: follow-up commit fails: {:?}", what, e))?;
+            }
+            db.check().map_err(|e| format!("{}: DB::check() fails after the follow-up transaction: {:?}", what, e))?;
+            read_all(&db, &m, &format!("{} (after the follow-up transaction)", what))?;
+            Ok(())
+        })();
+        let _ = std::fs::remove_file(&p);
+        res
+    }
+
+    #[test]
+    fn cex_history_window_shapes() {
+        for (outer, inner) in [(8u32, 24u32), (20, 40)] {
+            for nested_first in [false, true] {
+                let mut windows: Vec<(u32, u32)> = Vec::new();
+                for k in 1..=outer { windows.push((0, k)); }
+                for k in 1..outer { windows.push((k, outer)); }
+                for (lo, hi) in windows {
+                    match std::panic::catch_unwind(|| run_window_shape(outer, inner, nested_first, lo, hi)) {
+                        Ok(Ok(())) => {}
+                        Ok(Err(e)) => { println!("CEX history (C01/C05): {}", e); panic!("window shape mismatch"); }
+                        Err(_) => { println!("CEX history (C01 nothing panics): window shape outer={} inner={} nested_first={} [{}..{}) panicked", outer, inner, nested_first, lo, hi); panic!("window shape panic"); }
+                    }
+                }
+            }
+        }
+    }
+
     #[test]
     fn cex_history_deep_shapes() {
         for (lo, hi) in [(0u32, 280u32), (150, 450), (300, 600), (450, 750), (600, 900), (900, 1200), (1200, 1500), (100, 1400)] {
